@@ -4,17 +4,19 @@ import CotengraVerif.Model.DP
 namespace Cotengra.Driver.C09
 open Lean Cotengra Cotengra.Driver Cotengra.DP
 
-/-- objective: {"kind": "flops"|"max"|"size"|"write"|"combo"|"limit", "factor": n} -/
+/-- objective: {"kind": "flops"|"max"|"size"|"write"|"combo"|"limit", "factor": num, "den": den};
+    the factor is num/den and the model's scores are scaled by den -/
 def objOf (j : Json) : Except String Objective := do
   let k ← (← field j "kind").getStr?
   let f ← natOf (fieldD j "factor" (jNat 64))
+  let d ← natOf (fieldD j "den" (jNat 1))
   match k with
   | "flops" => pure .flops
   | "max" => pure .max
   | "size" => pure .size
   | "write" => pure .write
-  | "combo" => pure (.combo f)
-  | "limit" => pure (.limit f)
+  | "combo" => pure (.combo f d)
+  | "limit" => pure (.limit f d)
   | _ => throw s!"unknown objective {k}"
 
 def jTree : BT → Json
